@@ -1709,17 +1709,73 @@ Proof.
   - injection R as <- <-. apply ViaX; [|discriminate]. apply xsteps_prim, p_frame. repeat split.
 Qed.
 
+(* the loop, whatever its result (also when an exception escaped from its middle) *)
 Lemma run_callbacks_winv codes fuel e l : forall X s s' r,
   winv X l e s -> run_callbacks fuel codes e l s = (s', r) ->
-  exists X', etrace codes X' s s' /\ cinv (X ++ X') s' /\ procs_wf s' /\ (r = ROk -> binv l e s -> binv [] e s').
+  exists X', etrace codes X' s s' /\ cinv (X ++ X') s' /\ procs_wf s'.
 Proof.
   induction l as [|cb t IH]; intros X s s' r W R; cbn [run_callbacks] in R.
   - injection R as <- <-. exists []. rewrite app_nil_r. destruct W as (A & B & _). split; [constructor|auto].
   - destruct (run_cb fuel codes e cb s) as [s1 r1] eqn:R1.
     destruct (run_cb_winv codes fuel X cb t e s s1 r1 W R1) as (X1 & T1 & W1 & B1).
-    destruct r1; try (injection R as <- <-; exists X1; destruct W1 as (A & B & _); split; [exact T1|]; split; [exact A|]; split; [exact B|discriminate]).
-    destruct (IH _ _ _ _ W1 R) as (X2 & T2 & C2 & P2 & B2). exists (X1 ++ X2). split; [eapply et_app; eassumption|].
-    rewrite app_assoc. split; [exact C2|]. split; [exact P2|]. intros Er B. apply B2; [exact Er|apply B1, B].
+    assert (Cont : forall s2 r2, run_callbacks fuel codes e t s1 = (s2, r2) ->
+              exists X', etrace codes X' s s2 /\ cinv (X ++ X') s2 /\ procs_wf s2).
+    { intros s2 r2 R2. destruct (IH _ _ _ _ W1 R2) as (X2 & T2 & C2 & P2). exists (X1 ++ X2).
+      split; [eapply et_app; eassumption|]. rewrite app_assoc. auto. }
+    assert (Stop : exists X', etrace codes X' s s1 /\ cinv (X ++ X') s1 /\ procs_wf s1).
+    { exists X1. destruct W1 as (A & B & _). auto. }
+    destruct r1; try (injection R as <- <-; exact Stop); try (eapply Cont; exact R);
+      (destruct (is_stop_cb cb && is_exit _); [|injection R as <- <-; exact Stop]);
+      destruct (run_callbacks fuel codes e t s1) as [s2 r2] eqn:R2;
+      (assert (s' = s2) by (destruct r2; injection R as <- _; reflexivity)); subst s'; eapply Cont; reflexivity.
+Qed.
+
+(* a loop in which every callback ran: each returned normally, except that the stop callback of run(until=event)
+   may have raised (the repaired step() remembers that and continues) *)
+Inductive cbloop (codes : list prog) (fuel : nat) (e : evid) : list cb -> state -> state -> Prop :=
+| cbl_nil s : cbloop codes fuel e [] s s
+| cbl_ok c t s s1 s' : run_cb fuel codes e c s = (s1, ROk) -> cbloop codes fuel e t s1 s' -> cbloop codes fuel e (c :: t) s s'
+| cbl_stop t s s1 r s' : run_cb fuel codes e CbStop s = (s1, r) -> is_exit r = true -> cbloop codes fuel e t s1 s' ->
+                         cbloop codes fuel e (CbStop :: t) s s'.
+
+Lemma run_callbacks_cbloop codes fuel e l : forall s s',
+  run_callbacks fuel codes e l s = (s', ROk) -> cbloop codes fuel e l s s'.
+Proof.
+  induction l as [|cb t IH]; intros s s' R; cbn [run_callbacks] in R.
+  - injection R as <-. constructor.
+  - destruct (run_cb fuel codes e cb s) as [s1 r1] eqn:R1.
+    destruct r1; try (eapply cbl_ok; [exact R1|apply IH, R]);
+      (destruct (is_stop_cb cb && is_exit _); [|discriminate]);
+      destruct (run_callbacks fuel codes e t s1) as [s2 r2]; destruct r2; discriminate.
+Qed.
+
+Lemma cbloop_run_callbacks codes fuel e l s s' :
+  cbloop codes fuel e l s s' ->
+  exists r, run_callbacks fuel codes e l s = (s', r) /\ (r = ROk \/ (is_exit r = true /\ In CbStop l)).
+Proof.
+  induction 1 as [s|c t s s1 s' R1 L (r & IH & Hr)|t s s1 r1 s' R1 Ex L (r & IH & Hr)]; cbn [run_callbacks].
+  - exists ROk. auto.
+  - rewrite R1. exists r. split; [exact IH|]. destruct Hr as [H|(H & I)]; [auto|right; split; [exact H|right; exact I]].
+  - rewrite R1. destruct r1; try discriminate; cbn [is_stop_cb is_exit andb]; rewrite IH.
+    + destruct Hr as [->|(H & I)].
+      * exists (RStop v). split; [reflexivity|right; split; [reflexivity|left; reflexivity]].
+      * exists r. split; [destruct r; try discriminate; reflexivity|right; split; [exact H|right; exact I]].
+    + destruct Hr as [->|(H & I)].
+      * exists (RRaise x). split; [reflexivity|right; split; [reflexivity|left; reflexivity]].
+      * exists r. split; [destruct r; try discriminate; reflexivity|right; split; [exact H|right; exact I]].
+Qed.
+
+Lemma cbloop_winv codes fuel e l s s' : cbloop codes fuel e l s s' -> forall X, winv X l e s ->
+  exists X', etrace codes X' s s' /\ cinv (X ++ X') s' /\ procs_wf s' /\ (binv l e s -> binv [] e s').
+Proof.
+  induction 1 as [s|c t s s1 s' R1 L IH|t s s1 r1 s' R1 Ex L IH]; intros X W.
+  - exists []. rewrite app_nil_r. destruct W as (A & B & _). split; [constructor|auto].
+  - destruct (run_cb_winv codes fuel X c t e s s1 ROk W R1) as (X1 & T1 & W1 & B1).
+    destruct (IH _ W1) as (X2 & T2 & C2 & P2 & B2). exists (X1 ++ X2). split; [eapply et_app; eassumption|].
+    rewrite app_assoc. split; [exact C2|]. split; [exact P2|]. intros B. apply B2, B1, B.
+  - destruct (run_cb_winv codes fuel X CbStop t e s s1 r1 W R1) as (X1 & T1 & W1 & B1).
+    destruct (IH _ W1) as (X2 & T2 & C2 & P2 & B2). exists (X1 ++ X2). split; [eapply et_app; eassumption|].
+    rewrite app_assoc. split; [exact C2|]. split; [exact P2|]. intros B. apply B2, B1, B.
 Qed.
 
 (* ------------------------------------------------------------------------------------------------ *)
@@ -1738,19 +1794,25 @@ Definition bnd (s : state) : Prop := binv [] 0%nat s.
 (* a step whose callback loop ran to its end (no exception escaped from the middle of the loop) *)
 Definition clean_step (fuel : nat) (codes : list prog) (s s' : state) (e : evid) : Prop :=
   exists m rest ev l, pop_min (agenda s) = Some (m, rest) /\ e = e_ev m /\ get_event e s = Some ev /\ cbs ev = Some l /\
-                      run_callbacks fuel codes e l (popped m rest s) = (s', ROk).
+                      cbloop codes fuel e l (popped m rest s) s'.
 
-Lemma clean_step_result fuel codes s s' e : clean_step fuel codes s s' e -> step fuel codes s = (s', check_failure e s').
+(* what step() returns for it: the remembered stop of run(until=event) if there was one, else the verdict on an
+   undefused failure *)
+Lemma clean_step_result fuel codes s s' e : clean_step fuel codes s s' e ->
+  exists r, step fuel codes s = (s', r) /\
+            (r = check_failure e s' \/ (is_exit r = true /\ exists ev l, get_event e s = Some ev /\ cbs ev = Some l /\ In CbStop l)).
 Proof.
-  intros (m & rest & ev & l & Pm & -> & He & Cl & R). unfold step. rewrite Pm.
-  change (get_event (e_ev m) (pop_state m rest s)) with (get_event (e_ev m) s). rewrite He, Cl.
-  fold (popped m rest s). rewrite R. reflexivity.
+  intros (m & rest & ev & l & Pm & -> & He & Cl & L). destruct (cbloop_run_callbacks _ _ _ _ _ _ L) as (r & R & Hr).
+  unfold step. rewrite Pm. change (get_event (e_ev m) (pop_state m rest s)) with (get_event (e_ev m) s). rewrite He, Cl.
+  fold (popped m rest s). rewrite R. destruct Hr as [->|(Ex & I)].
+  - exists (check_failure (e_ev m) s'). auto.
+  - exists r. split; [destruct r; try discriminate; reflexivity|]. right. split; [exact Ex|]. exists ev, l. auto.
 Qed.
 
 Lemma step_ok_clean fuel codes s s' : step fuel codes s = (s', ROk) -> exists e, clean_step fuel codes s s' e.
 Proof.
   intros H. apply step_unfold in H. destruct H as [(_ & _ & H)|(m & rest & Pm & [(_ & _ & H)|[(ev & _ & _ & _ & H)|(ev & l & r2 & He & Cl & R & H)]])]; try discriminate.
-  exists (e_ev m), m, rest, ev, l. destruct r2; try discriminate. auto.
+  exists (e_ev m), m, rest, ev, l. destruct r2; try discriminate. repeat split; auto. apply run_callbacks_cbloop, R.
 Qed.
 
 Lemma step_winv codes fuel X s s' r :
@@ -1771,20 +1833,31 @@ Proof.
     - intros c Hin. destruct (ci_check _ _ CI _ _ _ _ He Cl Hin) as (cev & all & ops & n & Hc & Kc & Le).
       exists cev, all, ops, n. split; [exact Hc|]. split; [exact Kc|]. apply occ_in. apply cbcount_in in Hin. lia.
     - intros c Hin. exact (proj1 (ci_build _ _ CI _ _ _ _ He Cl Hin)). }
-  destruct (run_callbacks_winv codes fuel _ _ _ _ _ _ W R) as (X' & T & C & P & _).
+  destruct (run_callbacks_winv codes fuel _ _ _ _ _ _ W R) as (X' & T & C & P).
   exists X'. split; [|auto]. change X' with ([] ++ X'). eapply et_app; [exact T1|exact T].
 Qed.
 
-Lemma clean_step_bnd codes fuel X s s' e : cinv X s -> procs_wf s -> bnd s -> clean_step fuel codes s s' e -> bnd s'.
+Lemma clean_step_winv codes fuel X s s' e : cinv X s -> procs_wf s -> clean_step fuel codes s s' e ->
+  exists X', etrace codes X' s s' /\ cinv (X ++ X') s' /\ procs_wf s' /\ (bnd s -> bnd s').
 Proof.
-  intros CI PW B (m & rest & ev & l & Pm & -> & He & Cl & R).
-  destruct (binv_popped X 0%nat m rest s ev l CI B Pm He Cl) as (B1 & W1).
+  intros CI PW (m & rest & ev & l & Pm & -> & He & Cl & L).
+  assert (T1 : etrace codes [] s (popped m rest s)).
+  { rewrite <- (app_nil_r []). econstructor; [apply es_pop, Pm|constructor]. }
   assert (W : winv X l (e_ev m) (popped m rest s)).
   { split; [apply cinv_popped; assumption|]. split; [eapply prim_procs_wf; [apply p_pop, Pm|exact PW]|].
-    split; [eapply popped_processed, He|exact W1]. }
-  destruct (run_callbacks_winv codes fuel _ _ _ _ _ _ W R) as (X' & _ & _ & _ & Bf).
-  eapply binv_nil_irrel. apply Bf; [reflexivity|exact B1].
+    split; [eapply popped_processed, He|].
+    eapply wl_grows; [eapply prim_grows, p_pop, Pm|]. split.
+    - intros c Hin. destruct (ci_check _ _ CI _ _ _ _ He Cl Hin) as (cev & all & ops & n & Hc & Kc & Le).
+      exists cev, all, ops, n. split; [exact Hc|]. split; [exact Kc|]. apply occ_in. apply cbcount_in in Hin. lia.
+    - intros c Hin. exact (proj1 (ci_build _ _ CI _ _ _ _ He Cl Hin)). }
+  destruct (cbloop_winv _ _ _ _ _ _ L _ W) as (X' & T & C & P & Bf).
+  exists X'. split; [change X' with ([] ++ X'); eapply et_app; [exact T1|exact T]|]. split; [exact C|]. split; [exact P|].
+  intros B. destruct (binv_popped X 0%nat m rest s ev l CI B Pm He Cl) as (B1 & _).
+  eapply binv_nil_irrel. apply Bf, B1.
 Qed.
+
+Lemma clean_step_bnd codes fuel X s s' e : cinv X s -> procs_wf s -> bnd s -> clean_step fuel codes s s' e -> bnd s'.
+Proof. intros CI PW B CS. destruct (clean_step_winv codes fuel X s s' e CI PW CS) as (X' & _ & _ & _ & Bf). apply Bf, B. Qed.
 
 Lemma reach_step codes X fuel s s' r : reach codes X s -> step fuel codes s = (s', r) -> exists X', reach codes (X ++ X') s'.
 Proof.
@@ -1849,7 +1922,7 @@ Lemma creach_step codes X fuel s s' e :
   creach codes X s -> clean_step fuel codes s s' e -> exists X', creach codes (X ++ X') s'.
 Proof.
   intros C CS. pose proof (creach_reach _ _ _ C) as R.
-  destruct (step_winv codes fuel X s s' _ (reach_cinv _ _ _ R) (reach_procs_wf _ _ _ R) (clean_step_result _ _ _ _ _ CS)) as (X' & T & _).
+  destruct (clean_step_winv codes fuel X s s' e (reach_cinv _ _ _ R) (reach_procs_wf _ _ _ R) CS) as (X' & T & _).
   exists X'. eapply cr_step; eassumption.
 Qed.
 
